@@ -19,6 +19,8 @@ def collect(tier, seed):
     exe = fw.build_harness()
     n = 10 if tier == 'quick' else 300
     lines = ['%s|%d (serde %s %d)' % (t, i, t, seed * 1000 + i) for t in TYPES for i in range(n)]
+    # the same values written with a target block size (arrays and maps split into sized blocks): ids <type>|<i>b<size>
+    lines += ['%s|%db%d (serde %s %d %d)' % (t, i, b, t, seed * 1000 + i, b) for t in TYPES for i in range(min(n, 6)) for b in (1, 24)]
     out = {k: parse(v) for k, v in fw.run_lines(exe, lines).items()}
     # the derived JSON through parse / serialise / names (implementation) and through the model parser
     texts = {}
@@ -65,7 +67,7 @@ def judge(run, out, texts, rt, pv, model):
         if tag(o) != 'obs':
             continue
         run.evaluations += 1
-        case = {'type': t, 'seed_index': int(i), 'bytes': unhx(o[5]).hex()[:200] if isinstance(o[5], str) else ''}
+        case = {'type': t, 'seed_index': i, 'bytes': unhx(o[5]).hex()[:200] if isinstance(o[5], str) else ''}
         ser, deser, cont = o[6], o[7], o[10]
         known = KNOWN.get(t)
         if tag(ser) != 'ok':
